@@ -179,7 +179,8 @@ Record WF_core (s : mstate) : Prop := {
   wf_bound : forall k e, reach_any s k e -> e < next_e s;
   wf_dirty_live : forall k e, dirty_lookup s k = Some e -> is_exp s e = false; (* no expunged entry in dirty *)
   wf_amended : amended s = true -> dirty s <> None;
-  wf_clean : dirty s = None -> forall k e, read_m s !! k = Some e -> is_exp s e = false
+  wf_clean : dirty s = None -> forall k e, read_m s !! k = Some e -> is_exp s e = false;
+  wf_exp_bound : forall e, is_exp s e = true -> e < next_e s  (* only allocated entries are expunged *)
 }.
 
 (* the part the lock holder suspends while it rebuilds the dirty map *)
@@ -286,4 +287,970 @@ Proof.
   all: try (eapply cas_ok_not_exp; eauto; fail).
   all: try (rewrite is_exp_ent; repeat case_match; congruence).
   all: destruct (Hdel eq_refl) as [? ?]; eapply cas_ok_not_exp; eauto; congruence.
+Qed.
+
+(* ------------------------------------------------------------------ *)
+(* stability of the invariants under [sim]; promotion *)
+(* ------------------------------------------------------------------ *)
+(* ---- stability under sim ---- *)
+Lemma reach_any_sim s s' k e : sim s s' -> reach_any s' k e <-> reach_any s k e.
+Proof. intros [? Hr ? Hd ?]. unfold reach_any, dirty_lookup. rewrite Hr, Hd. reflexivity. Qed.
+
+Lemma WF_core_sim s s' : sim s s' -> WF_core s -> WF_core s'.
+Proof.
+  intros Hs [H1 H2 H3 H4 H5 HX]. pose proof Hs as [Hn Hr Ha Hd He]. constructor.
+  - intros k1 k2 e. rewrite !(reach_any_sim s s') by assumption. apply H1.
+  - intros k e. rewrite (reach_any_sim s s') by assumption. rewrite Hn. apply H2.
+  - intros k e. unfold dirty_lookup. rewrite Hd, He. apply H3.
+  - rewrite Ha, Hd. exact H4.
+  - rewrite Hd, Hr. intros Hx k e Hk. rewrite He. eapply H5; eauto.
+  - intros e. rewrite He, Hn. apply HX.
+Qed.
+
+Lemma WF_ad_sim s s' : sim s s' -> WF_ad s -> WF_ad s'.
+Proof.
+  intros [Hn Hr Ha Hd He] [H1 H2]. constructor.
+  - rewrite Hd, Hr. intros d k e Hx Hk. rewrite He. eauto.
+  - rewrite Ha, Hd. exact H2.
+Qed.
+
+Lemma WF_sim s s' : sim s s' -> WF s -> WF s'.
+Proof. intros Hs [H1 H2]. split; eauto using WF_core_sim, WF_ad_sim. Qed.
+
+Lemma loop_inv_sim s s' rdm key done : sim s s' -> loop_inv s rdm key done -> loop_inv s' rdm key done.
+Proof.
+  intros [Hn Hr Ha Hd He] (H1 & H2 & H3 & d & H4 & H5 & H6). unfold loop_inv.
+  rewrite Hr, Ha, Hd. split; [exact H1|]. split; [exact H2|]. split; [exact H3|].
+  exists d. split; [exact H4|]. split; [|exact H6].
+  intros k e Hk Hin. rewrite He. eauto.
+Qed.
+
+Lemma WFL_sim s s' f : sim s s' -> WFL s f -> WFL s' f.
+Proof.
+  intros Hs [Hc H]. split; [eapply WF_core_sim; eauto|].
+  pose proof Hs as [Hn Hr Ha Hd He].
+  destruct (cs_class f); try exact I.
+  - eapply WF_ad_sim; eauto.
+  - destruct H as [H1 H2]. split; [eapply WF_ad_sim; eauto|]. rewrite Hr. exact H2.
+  - destruct H as [H1 (e & H2 & H3)]. split; [eapply WF_ad_sim; eauto|]. exists e. rewrite He. auto.
+  - destruct H as [H1 [H2 H3]]. split; [eapply WF_ad_sim; eauto|]. rewrite Hd, Hr. auto.
+  - eapply loop_inv_sim; eauto.
+  - destruct H as (vis & H1 & H2 & H3 & H4). exists vis. eauto using loop_inv_sim.
+  - destruct H as [H1 H2]. split; [eapply loop_inv_sim; eauto|]. rewrite Hr. exact H2.
+Qed.
+
+Lemma sim_misses s m : sim s (st_with_misses s m).
+Proof. constructor; reflexivity. Qed.
+
+Lemma sim_set_ent s e p : is_exp s e = false -> p <> PExpunged -> sim s (set_ent s e p).
+Proof.
+  intros He Hp. constructor; try reflexivity. intros e0. rewrite is_exp_set_ent.
+  destruct (decide (e0 = e)) as [->|]; [|reflexivity].
+  rewrite He. apply bool_decide_eq_false. exact Hp.
+Qed.
+
+(* ---- promotion: m.read := (dirty, false); dirty := nil; misses := 0 ---- *)
+Lemma WF_promote s : WF_core s -> WF (MState (ents s) (next_e s) (default ∅ (dirty s)) false None 0).
+Proof.
+  intros [H1 H2 H3 H4 H5 HX].
+  assert (R : forall k e, reach_any (MState (ents s) (next_e s) (default ∅ (dirty s)) false None 0) k e -> dirty_lookup s k = Some e).
+  { intros k e [H|H]; cbn in H; [|discriminate]. unfold dirty_lookup. destruct (dirty s); [exact H|]. cbn in H. rewrite lookup_empty in H. discriminate. }
+  split; constructor; cbn.
+  - intros k1 k2 e Ha Hb. apply (H1 k1 k2 e); right; auto.
+  - intros k e Ha. apply (H2 k e). right; auto.
+  - intros k e H. discriminate.
+  - discriminate.
+  - intros _ k e Hk. apply (H3 k e). apply R. left. exact Hk.
+  - exact HX.
+  - discriminate.
+  - reflexivity.
+Qed.
+
+(* ------------------------------------------------------------------ *)
+(* what the lock holder does to the state *)
+(* ------------------------------------------------------------------ *)
+Definition exps (es : gmap nat ptr) (e : nat) : bool := match default PNil (es !! e) with PExpunged => true | _ => false end.
+Lemma is_exp_mk es ne rm am d ms e : is_exp (MState es ne rm am d ms) e = exps es e.
+Proof. reflexivity. Qed.
+Lemma is_exp_exps s e : is_exp s e = exps (ents s) e.
+Proof. reflexivity. Qed.
+Lemma exps_insert es e p e0 : exps (<[e := p]> es) e0 = if decide (e0 = e) then bool_decide (p = PExpunged) else exps es e0.
+Proof.
+  unfold exps. destruct (decide (e0 = e)) as [->|N].
+  - rewrite lookup_insert. destruct p; reflexivity.
+  - rewrite lookup_insert_ne by congruence. reflexivity.
+Qed.
+
+(* ---- m.dirty[key] = newEntry(value), key in neither map ---- *)
+Lemma WF_insert_new s d key v :
+  WF_core s -> dirty s = Some d -> read_m s !! key = None -> d !! key = None ->
+  (forall k e, read_m s !! k = Some e -> d !! k = if is_exp s e then None else Some e) ->
+  WF (MState (<[next_e s := PVal v]> (ents s)) (S (next_e s)) (read_m s) true (Some (<[key := next_e s]> d)) (misses s)).
+Proof.
+  intros [H1 H2 H3 H4 H5 HX] Hd Hrk Hdk Hcov.
+  set (s2 := MState _ _ _ _ _ _).
+  assert (R : forall k e, reach_any s2 k e -> (k = key /\ e = next_e s) \/ (k <> key /\ reach_any s k e)).
+  { intros k e [H|H]; cbn in H.
+    - right. split; [congruence|]. left. exact H.
+    - destruct (decide (k = key)) as [->|N].
+      + rewrite lookup_insert in H. left. split; congruence.
+      + rewrite lookup_insert_ne in H by congruence. right. split; [exact N|]. right. unfold dirty_lookup. rewrite Hd. exact H. }
+  assert (X : forall e, e < next_e s -> is_exp s2 e = is_exp s e).
+  { intros e He. unfold s2. rewrite is_exp_mk, exps_insert. destruct (decide (e = next_e s)); [lia|reflexivity]. }
+  split; constructor; cbn.
+  - intros k1 k2 e Ha Hb. apply R in Ha, Hb.
+    destruct Ha as [[Ea Eb]|[Na Ha]], Hb as [[Ec Ed]|[Nb Hb]]; subst; try reflexivity.
+    + apply H2 in Hb. lia.
+    + apply H2 in Ha. lia.
+    + eauto.
+  - intros k e Ha. apply R in Ha. destruct Ha as [[-> ->]|[Na Ha]]; [lia|]. apply H2 in Ha. lia.
+  - intros k e H. assert (Ha : reach_any s2 k e) by (right; exact H). apply R in Ha.
+    destruct Ha as [[-> ->]|[Na Ha]].
+    + unfold s2. rewrite is_exp_mk, exps_insert. rewrite decide_True by reflexivity. reflexivity.
+    + rewrite lookup_insert_ne in H by congruence. rewrite X by (eapply H2; eauto).
+      apply (H3 k). unfold dirty_lookup. rewrite Hd. exact H.
+  - discriminate.
+  - discriminate.
+  - intros e. rewrite exps_insert. destruct (decide (e = next_e s)); [lia|]. intros He. apply HX in He. lia.
+  - intros d0 k e [= <-] Hk. assert (k <> key) by congruence. rewrite lookup_insert_ne by congruence.
+    rewrite X by (eapply H2; left; eauto). auto.
+  - discriminate.
+Qed.
+
+(* ---- unexpungeLocked succeeded; m.dirty[key] = e ---- *)
+Lemma WF_unexpunge s key e :
+  WF_core s -> WF_ad s -> read_m s !! key = Some e -> is_exp s e = true ->
+  exists d, dirty s = Some d /\
+    WF (MState (<[e := PNil]> (ents s)) (next_e s) (read_m s) (amended s) (Some (<[key := e]> d)) (misses s)).
+Proof.
+  intros [H1 H2 H3 H4 H5 HX] [H6 H7] Hk He.
+  destruct (dirty s) as [d|] eqn:Hd; [|rewrite (H5 eq_refl key e Hk) in He; discriminate].
+  exists d. split; [reflexivity|]. set (s2 := MState _ _ _ _ _ _).
+  assert (R : forall k e0, reach_any s2 k e0 -> reach_any s k e0).
+  { intros k e0 [H|H]; cbn in H; [left; exact H|].
+    destruct (decide (k = key)) as [->|N].
+    - rewrite lookup_insert in H. left. congruence.
+    - rewrite lookup_insert_ne in H by congruence. right. unfold dirty_lookup. rewrite Hd. exact H. }
+  assert (X : forall e0, e0 <> e -> is_exp s2 e0 = is_exp s e0).
+  { intros e0 N. unfold s2. rewrite is_exp_mk, exps_insert. rewrite decide_False by exact N. reflexivity. }
+  assert (Y : is_exp s2 e = false).
+  { unfold s2. rewrite is_exp_mk, exps_insert. rewrite decide_True by reflexivity. reflexivity. }
+  split; constructor; cbn.
+  - intros k1 k2 e0 Ha Hb. eauto.
+  - intros k e0 Ha. eauto.
+  - intros k e0 H. destruct (decide (k = key)) as [->|N].
+    + rewrite lookup_insert in H. congruence.
+    + rewrite lookup_insert_ne in H by congruence.
+      assert (is_exp s e0 = false) by (apply (H3 k); unfold dirty_lookup; rewrite Hd; exact H).
+      rewrite X; [assumption|congruence].
+  - discriminate.
+  - discriminate.
+  - intros e0 He0. destruct (decide (e0 = e)) as [->|N]; [apply HX; exact He|]. apply HX. rewrite <- X by exact N. exact He0.
+  - intros d0 k e0 [= <-] Hk0. destruct (decide (k = key)) as [->|N].
+    + rewrite lookup_insert. assert (e0 = e) by congruence. subst e0. rewrite Y. reflexivity.
+    + rewrite lookup_insert_ne by congruence. rewrite X; [eauto|].
+      intros ->. apply N. apply (H1 k key e); left; assumption.
+  - intros Ha. specialize (H7 Ha). congruence.
+Qed.
+
+(* ---- delete(m.dirty, key), key not in read.m ---- *)
+Lemma WF_dirty_delete s key : WF s -> read_m s !! key = None -> WF (dirty_delete s key).
+Proof.
+  intros [[H1 H2 H3 H4 H5 HX] [H6 H7]] Hk. unfold dirty_delete.
+  destruct (dirty s) as [d|] eqn:Hd; [|split; constructor; rewrite ?Hd; assumption].
+  set (s2 := MState _ _ _ _ _ _).
+  assert (R : forall k e0, reach_any s2 k e0 -> reach_any s k e0).
+  { intros k e0 [H|H]; cbn in H; [left; exact H|]. apply lookup_delete_Some in H as [N H].
+    right. unfold dirty_lookup. rewrite Hd. exact H. }
+  split; constructor; cbn.
+  - eauto.
+  - eauto.
+  - intros k e0 H. apply lookup_delete_Some in H as [N H]. apply (H3 k). unfold dirty_lookup. rewrite Hd. exact H.
+  - discriminate.
+  - discriminate.
+  - exact HX.
+  - intros d0 k e0 [= <-] Hk0. assert (k <> key) by congruence. rewrite lookup_delete_ne by congruence. eauto.
+  - intros Ha. specialize (H7 Ha). congruence.
+Qed.
+
+(* ---- dirtyLocked ---- *)
+Lemma WF_dirty_read s key :
+  WF_core s -> dirty s = None -> read_m s !! key = None ->
+  WF_core (st_with_dirty s (Some ∅)) /\ loop_inv (st_with_dirty s (Some ∅)) (read_m s) key [].
+Proof.
+  intros [H1 H2 H3 H4 H5 HX] Hd Hk.
+  assert (R : forall k e0, reach_any (st_with_dirty s (Some ∅)) k e0 -> reach_any s k e0).
+  { intros k e0 [H|H]; cbn in H; [left; exact H|]. rewrite lookup_empty in H. discriminate. }
+  split; [constructor; cbn|].
+  - eauto.
+  - eauto.
+  - intros k e0 H. rewrite lookup_empty in H. discriminate.
+  - discriminate.
+  - discriminate.
+  - exact HX.
+  - split; [reflexivity|]. split; [cbn; destruct (amended s); [exfalso; apply H4; auto|reflexivity]|].
+    split; [exact Hk|]. exists ∅. split; [reflexivity|]. split.
+    + intros k e _ Hin. inversion Hin.
+    + intros k e H. rewrite lookup_empty in H. discriminate.
+Qed.
+
+Lemma loop_copy s rdm key vis ck e s' :
+  WF_core s -> loop_inv s rdm key vis -> read_m s !! ck = Some e -> ck ∉ vis -> is_exp s e = false ->
+  dirty_insert s ck e = Ok s' ->
+  WF_core s' /\ loop_inv s' rdm key (ck :: vis).
+Proof.
+  intros [H1 H2 H3 H4 H5 HX] (L1 & L2 & L3 & d & L4 & L5 & L6) Hk Hnv He Hs'.
+  unfold dirty_insert in Hs'. rewrite L4 in Hs'. injection Hs' as <-. set (s2 := MState _ _ _ _ _ _).
+  assert (R : forall k e0, reach_any s2 k e0 -> reach_any s k e0).
+  { intros k e0 [H|H]; cbn in H; [left; exact H|].
+    destruct (decide (k = ck)) as [->|N].
+    - rewrite lookup_insert in H. left. congruence.
+    - rewrite lookup_insert_ne in H by congruence. right. unfold dirty_lookup. rewrite L4. exact H. }
+  split; [constructor; cbn|].
+  - eauto.
+  - eauto.
+  - intros k e0 H. destruct (decide (k = ck)) as [->|N].
+    + rewrite lookup_insert in H. assert (e0 = e) by congruence. subst. exact He.
+    + rewrite lookup_insert_ne in H by congruence. apply (H3 k). unfold dirty_lookup. rewrite L4. exact H.
+  - discriminate.
+  - discriminate.
+  - exact HX.
+  - split; [exact L1|]. split; [exact L2|]. split; [exact L3|]. eexists. split; [reflexivity|]. split.
+    + intros k e0 Hk0 Hin. change (is_exp s2 e0) with (is_exp s e0). change (read_m s !! k = Some e0) in Hk0. destruct (decide (k = ck)) as [->|N].
+      * rewrite lookup_insert. assert (e0 = e) by congruence. subst. rewrite He. reflexivity.
+      * rewrite lookup_insert_ne by congruence. apply L5; [exact Hk0|]. apply elem_of_cons in Hin as [?|?]; [contradiction|assumption].
+    + intros k e0 H. change (read_m s2) with (read_m s). destruct (decide (k = ck)) as [->|N].
+      * rewrite lookup_insert in H. split; [left|congruence].
+      * rewrite lookup_insert_ne in H by congruence. destruct (L6 _ _ H). split; [right|]; assumption.
+Qed.
+
+Lemma loop_skip s rdm key vis ck e :
+  loop_inv s rdm key vis -> read_m s !! ck = Some e -> ck ∉ vis -> is_exp s e = true ->
+  loop_inv s rdm key (ck :: vis).
+Proof.
+  intros (L1 & L2 & L3 & d & L4 & L5 & L6) Hk Hnv He.
+  split; [exact L1|]. split; [exact L2|]. split; [exact L3|]. exists d. split; [exact L4|]. split.
+  - intros k e0 Hk0 Hin. destruct (decide (k = ck)) as [->|N].
+    + assert (e0 = e) by congruence. subst. rewrite He.
+      destruct (d !! ck) as [e1|] eqn:E; [|reflexivity]. destruct (L6 _ _ E). contradiction.
+    + apply L5; [exact Hk0|]. apply elem_of_cons in Hin as [?|?]; [contradiction|assumption].
+  - intros k e0 H. destruct (L6 _ _ H). split; [right|]; assumption.
+Qed.
+
+Lemma loop_expunge s rdm key vis ck e :
+  WF_core s -> loop_inv s rdm key vis -> read_m s !! ck = Some e -> ck ∉ vis -> is_exp s e = false ->
+  WF_core (set_ent s e PExpunged) /\ loop_inv (set_ent s e PExpunged) rdm key (ck :: vis).
+Proof.
+  intros [H1 H2 H3 H4 H5 HX] (L1 & L2 & L3 & d & L4 & L5 & L6) Hk Hnv He.
+  set (s2 := set_ent s e PExpunged).
+  assert (R : forall k e0, reach_any s2 k e0 <-> reach_any s k e0) by reflexivity.
+  assert (X : forall e0, e0 <> e -> is_exp s2 e0 = is_exp s e0).
+  { intros e0 N. unfold s2. rewrite is_exp_set_ent. rewrite decide_False by exact N. reflexivity. }
+  assert (Y : is_exp s2 e = true).
+  { unfold s2. rewrite is_exp_set_ent. rewrite decide_True by reflexivity. reflexivity. }
+  assert (Z : forall k e0, d !! k = Some e0 -> e0 <> e).
+  { intros k e0 H ->. destruct (L6 _ _ H) as [Hin Hr]. apply Hnv.
+    replace ck with k; [exact Hin|]. apply (H1 k ck e); left; assumption. }
+  split; [constructor|].
+  - intros k1 k2 e0. rewrite !R. apply H1.
+  - intros k e0. rewrite R. apply H2.
+  - intros k e0 H. change (dirty_lookup s k = Some e0) in H. pose proof H as H'. unfold dirty_lookup in H'. rewrite L4 in H'.
+    rewrite X by eauto. eauto.
+  - exact H4.
+  - intros Hx. change (dirty s = None) in Hx. congruence.
+  - intros e0 He0. change (next_e s2) with (next_e s). destruct (decide (e0 = e)) as [->|N].
+    + apply (H2 ck). left. exact Hk.
+    + apply HX. rewrite <- X by exact N. exact He0.
+  - split; [exact L1|]. split; [exact L2|]. split; [exact L3|]. exists d. split; [exact L4|]. split.
+    + intros k e0 Hk0 Hin. change (read_m s !! k = Some e0) in Hk0. destruct (decide (k = ck)) as [->|N].
+      * assert (e0 = e) by congruence. subst. rewrite Y.
+        destruct (d !! ck) as [e1|] eqn:E; [|reflexivity]. destruct (L6 _ _ E). contradiction.
+      * apply elem_of_cons in Hin as [?|Hin]; [contradiction|].
+        rewrite X; [eauto|]. intros ->. apply N. apply (H1 k ck e); left; assumption.
+    + intros k e0 H. destruct (L6 _ _ H). split; [right|]; assumption.
+Qed.
+
+(* the amend step: m.read := (read.m, true); m.dirty[key] = newEntry(value) *)
+Lemma WF_amend s rdm key vis v :
+  WF_core s -> loop_inv s rdm key vis -> (forall k e, read_m s !! k = Some e -> k ∈ vis) ->
+  exists d, dirty s = Some d /\
+  WF (MState (<[next_e s := PVal v]> (ents s)) (S (next_e s)) rdm true (Some (<[key := next_e s]> d)) (misses s)).
+Proof.
+  intros Hc (L1 & L2 & L3 & d & L4 & L5 & L6) Hall. exists d. split; [exact L4|]. subst rdm.
+  apply WF_insert_new; auto.
+  - destruct (d !! key) as [e|] eqn:E; [|reflexivity]. destruct (L6 _ _ E). congruence.
+  - intros k e Hk. apply L5; eauto.
+Qed.
+
+(* ------------------------------------------------------------------ *)
+(* L3: steps inside the critical section, label by label *)
+(* ------------------------------------------------------------------ *)
+(* ---- L3: a step inside the critical section ---- *)
+Definition cs_post (t : nat) (r : result (inst * outcome)) : Prop :=
+  exists i' o, r = Ok (i', o) /\
+    ((i_mu i' = Some t /\ exists f', o = Continue f' /\ in_cs f' = true /\ WFL (i_st i') f')
+     \/ (i_mu i' = None /\ WF (i_st i') /\ out_free o)).
+
+Lemma cs_stay t i' f' : i_mu i' = Some t -> in_cs f' = true /\ WFL (i_st i') f' -> cs_post t (Ok (i', Continue f')).
+Proof. intros ? []. exists i', (Continue f'). split; [reflexivity|]. left. eauto. Qed.
+Lemma cs_leave t i' o : i_mu i' = None -> WF (i_st i') -> out_free o -> cs_post t (Ok (i', o)).
+Proof. intros. exists i', o. split; [reflexivity|]. right. eauto. Qed.
+
+Lemma cs_class_unlock f c : cs_class (set_pc f (unlock_label c)) = CsPlain.
+Proof. destruct c; reflexivity. Qed.
+Lemma cs_class_amend f c : cs_class (set_pc f (amend_label c)) = CsAmend.
+Proof. destruct c; reflexivity. Qed.
+
+Lemma WFL_plain s f : WF_core s -> WF_ad s -> cs_class f = CsPlain -> in_cs f = true /\ WFL s f.
+Proof. intros Hc Ha E. unfold in_cs, WFL. rewrite E. auto. Qed.
+
+(* after_miss keeps the lock and the structure *)
+Lemma cs_after_miss t i f : i_mu i = Some t -> WF_core (i_st i) -> WF_ad (i_st i) ->
+  forall i' f', after_miss i f = (i', f') -> cs_post t (Ok (i', Continue f')).
+Proof.
+  intros Hmu Hc Ha i' f' H. unfold after_miss in H.
+  assert (S := sim_misses (i_st i) (misses (i_st i) + 1)).
+  case_match; simplify_eq; apply cs_stay; try exact Hmu;
+    apply WFL_plain; eauto using WF_core_sim, WF_ad_sim, cs_class_unlock.
+Qed.
+
+Lemma WFL_dirty_next s f : WF_core s -> loop_inv s (f_rd_m f) (key_of (f_call f)) (f_visited f) ->
+  in_cs (dirty_next f) = true /\ WFL s (dirty_next f).
+Proof.
+  intros Hc Hl. unfold dirty_next. destruct (unvisited _ _) eqn:E.
+  - unfold in_cs, WFL. rewrite cs_class_amend. split; [reflexivity|]. split; [exact Hc|]. split; [exact Hl|].
+    intros k e Hk. destruct Hl as [Hr _]. cbn. eapply unvisited_nil; eauto. cbn in Hr. rewrite Hr. exact Hk.
+  - split; [reflexivity|]. split; [exact Hc|]. exact Hl.
+Qed.
+
+Ltac cs_start :=
+  let Hc := fresh "Hc" in let Hw := fresh "Hw" in
+  intros [He Hst Hdel Hpost] Hpc Hmu [Hc Hw] H; unfold step_frame in H; rewrite Hpc in H;
+  unfold cs_class in Hw; rewrite Hpc in Hw; rewrite Hpc in He; cbn in He.
+
+Lemma cs_Load_read2 t i f ch r : frame_ok f -> f_pc f = Load_read2 -> i_mu i = Some t -> WFL (i_st i) f ->
+  step_frame t i f ch = Some r -> cs_post t r.
+Proof.
+  cs_start. repeat case_match; simplify_eq.
+  - apply cs_stay; [exact Hmu|apply WFL_plain; auto].
+  - eapply cs_after_miss; eauto.
+  - apply cs_stay; [exact Hmu|apply WFL_plain; auto].
+Qed.
+
+Notation cs_goal l := (forall t i f ch r, frame_ok f -> f_pc f = l -> i_mu i = Some t -> WFL (i_st i) f ->
+  step_frame t i f ch = Some r -> cs_post t r).
+
+Ltac stay_plain Hmu := apply cs_stay; [exact Hmu|apply WFL_plain; auto].
+Ltac leave_wf := apply cs_leave; [reflexivity|split; assumption|cbn; try exact I; try reflexivity].
+
+Lemma cs_Load_unlock : cs_goal Load_unlock.
+Proof. intros t i f ch r. cs_start. repeat case_match; simplify_eq; leave_wf. Qed.
+
+Lemma cs_Store_unlock : cs_goal Store_unlock.
+Proof. intros t i f ch r. cs_start. simplify_eq. leave_wf. Qed.
+
+Lemma cs_LAD_unlock : cs_goal LAD_unlock.
+Proof. intros t i f ch r. cs_start. repeat case_match; simplify_eq; leave_wf. Qed.
+
+Lemma cs_LOS_unlock : cs_goal LOS_unlock.
+Proof.
+  intros t i f ch r. cs_start. simplify_eq. apply cs_leave; [reflexivity|split; assumption|].
+  unfold los_return. repeat case_match; cbn; try exact I. eapply in_cs_post; [eassumption|reflexivity].
+Qed.
+
+Lemma cs_Range_unlock : cs_goal Range_unlock.
+Proof.
+  intros t i f ch r. cs_start. simplify_eq. apply cs_leave; [reflexivity|split; assumption|].
+  destruct (range_next_cases f false) as [[r ->]| ->]; [exact I|reflexivity].
+Qed.
+
+Lemma cs_Miss_store : cs_goal Miss_store.
+Proof.
+  intros t i f ch r. cs_start. simplify_eq. destruct (WF_promote _ Hc).
+  apply cs_stay; [exact Hmu|]. apply WFL_plain; auto using cs_class_unlock.
+Qed.
+
+Lemma cs_Range_promote : cs_goal Range_promote.
+Proof.
+  intros t i f ch r. cs_start. simplify_eq. destruct (WF_promote _ Hc).
+  apply cs_stay; [exact Hmu|]. apply WFL_plain; auto.
+Qed.
+
+Lemma cs_Range_read2 : cs_goal Range_read2.
+Proof. intros t i f ch r. cs_start. repeat case_match; simplify_eq; stay_plain Hmu. Qed.
+
+Lemma cs_LAD_read2 : cs_goal LAD_read2.
+Proof.
+  intros t i f ch r. cs_start. repeat case_match; simplify_eq; try stay_plain Hmu.
+  destruct (WF_dirty_delete (i_st i) (key_of (f_call f))) as [Hc' Ha']; [split; assumption|assumption|].
+  eapply cs_after_miss; [| | |eassumption]; [exact Hmu|exact Hc'|exact Ha'].
+Qed.
+
+(* the slow path of Store / LoadOrStore after the second read of m.read *)
+Lemma cs_Store_read2 : cs_goal Store_read2.
+Proof.
+  intros t i f ch r. cs_start. unfold new_entry, dirty_insert, bind in H. cbn in H.
+  repeat case_match; simplify_eq.
+  - apply cs_stay; [exact Hmu|]. split; [reflexivity|]. split; [exact Hc|]. cbn. auto.
+  - apply cs_stay; [exact Hmu|]. split; [reflexivity|]. split; [exact Hc|]. cbn. split; [exact Hw|].
+    eexists. split; [reflexivity|]. eapply wf_dirty_live; eauto.
+  - apply cs_stay; [exact Hmu|]. unfold dirty_lookup in *. case_match; simplify_eq.
+    destruct (WF_insert_new (i_st i) g (key_of (f_call f)) (val_of (f_call f))) as [Hc' Ha']; auto.
+    { intros k e Hk. eapply wf_cover; eauto. }
+    apply WFL_plain; auto.
+  - exfalso. eapply wf_amended; eauto.
+  - exfalso. pose proof (wf_unamended _ Hw). intuition congruence.
+  - apply cs_stay; [exact Hmu|]. split; [reflexivity|]. split; [exact Hc|]. cbn. auto.
+Qed.
+
+Lemma cs_LOS_read2 : cs_goal LOS_read2.
+Proof.
+  intros t i f ch r. cs_start. unfold new_entry, dirty_insert, bind in H. cbn in H.
+  repeat case_match; simplify_eq.
+  - apply cs_stay; [exact Hmu|]. split; [reflexivity|]. split; [exact Hc|]. cbn. auto.
+  - stay_plain Hmu.
+  - apply cs_stay; [exact Hmu|]. unfold dirty_lookup in *. case_match; simplify_eq.
+    destruct (WF_insert_new (i_st i) g (key_of (f_call f)) (val_of (f_call f))) as [Hc' Ha']; auto.
+    { intros k e Hk. eapply wf_cover; eauto. }
+    apply WFL_plain; auto.
+  - exfalso. eapply wf_amended; eauto.
+  - exfalso. pose proof (wf_unamended _ Hw). intuition congruence.
+  - apply cs_stay; [exact Hmu|]. split; [reflexivity|]. split; [exact Hc|]. cbn. auto.
+Qed.
+
+(* tryLoadOrStore called with the lock held *)
+Lemma cs_tlos_done t i f a l ok i' o :
+  i_mu i = Some t -> WF_core (i_st i) -> WF_ad (i_st i) -> f_mode f <> MFast ->
+  tlos_done i f a l ok = (i', o) -> cs_post t (Ok (i', o)).
+Proof.
+  intros Hmu Hc Ha Hm H. unfold tlos_done in H. destruct (f_mode f) eqn:E; [congruence| |].
+  - simplify_eq. stay_plain Hmu.
+  - destruct (after_miss i (set_los f a l)) as [i2 f2] eqn:E2. simplify_eq.
+    eapply cs_after_miss; eauto.
+Qed.
+
+Ltac cs_start_tlos i f :=
+  let Hc := fresh "Hc" in let Hw := fresh "Hw" in
+  intros [He Hst Hdel Hpost] Hpc Hm Hmu [Hc Hw] H; unfold step_frame in H; rewrite Hpc in H;
+  unfold cs_class in Hw; rewrite Hpc in Hw; rewrite Hpc in He; cbn in He;
+  assert (Hw' : WF_ad (i_st i)) by (destruct (f_mode f); [congruence|exact Hw|exact Hw]); clear Hw.
+
+Lemma in_cs_tlos f l : f_mode f <> MFast -> l = Tlos_load1 \/ l = Tlos_cas \/ l = Tlos_load2 ->
+  cs_class (set_pc f l) = CsPlain.
+Proof. intros Hm [->|[->| ->]]; unfold cs_class; cbn; destruct (f_mode f); congruence. Qed.
+
+Notation cs_goal_tlos l := (forall t i f ch r, frame_ok f -> f_pc f = l -> f_mode f <> MFast -> i_mu i = Some t -> WFL (i_st i) f ->
+  step_frame t i f ch = Some r -> cs_post t r).
+
+Lemma cs_Tlos_load1 : cs_goal_tlos Tlos_load1.
+Proof.
+  intros t i f ch r. cs_start_tlos i f. repeat case_match; simplify_eq;
+    try (exfalso; apply He; reflexivity);
+    try (eapply cs_tlos_done; eauto; fail).
+  apply cs_stay; [exact Hmu|]. apply WFL_plain; auto. apply in_cs_tlos; auto.
+Qed.
+
+Lemma cs_Tlos_load2 : cs_goal_tlos Tlos_load2.
+Proof.
+  intros t i f ch r. cs_start_tlos i f. repeat case_match; simplify_eq;
+    try (exfalso; apply He; reflexivity);
+    try (eapply cs_tlos_done; eauto; fail).
+  apply cs_stay; [exact Hmu|]. apply WFL_plain; auto. apply in_cs_tlos; auto.
+Qed.
+
+Lemma cs_Tlos_cas : cs_goal_tlos Tlos_cas.
+Proof.
+  intros t i f ch r. cs_start_tlos i f. repeat case_match; simplify_eq; try (exfalso; apply He; reflexivity).
+  - assert (S : sim (i_st i) (i_st (put_ent i n (PVal (val_of (f_call f)))))).
+    { apply sim_set_ent; [|discriminate]. rewrite is_exp_ent. rewrite H1. reflexivity. }
+    eapply cs_tlos_done; [| | | |eassumption]; eauto using WF_core_sim, WF_ad_sim.
+  - apply cs_stay; [exact Hmu|]. apply WFL_plain; auto. apply in_cs_tlos; auto.
+  - apply cs_stay; [exact Hmu|]. apply WFL_plain; auto. apply in_cs_tlos; auto.
+Qed.
+
+Lemma cs_StoreLocked : cs_goal StoreLocked.
+Proof.
+  intros t i f ch r. cs_start. destruct Hw as [Hw (e & Hfe & Hex)]. rewrite Hfe in H. simplify_eq.
+  assert (S : sim (i_st i) (i_st (put_ent i e (PVal (val_of (f_call f)))))).
+  { apply sim_set_ent; [exact Hex|discriminate]. }
+  apply cs_stay; [exact Hmu|]. apply WFL_plain; eauto using WF_core_sim, WF_ad_sim.
+Qed.
+
+(* where Unexpunge_cas goes next *)
+Lemma WFL_unexp_next s f e :
+  WF_core s -> WF_ad s -> f_e f = Some e -> is_exp s e = false ->
+  let next := match f_call f with
+              | CStore _ _ _ => set_pc f StoreLocked
+              | _ => set_pc (set_mode f MLockedRead) Tlos_load1
+              end in
+  in_cs next = true /\ WFL s next.
+Proof.
+  intros Hc Ha Hfe Hex. destruct (f_call f); cbn; (split; [reflexivity|]); (split; [exact Hc|]); cbn; eauto.
+Qed.
+
+Lemma cs_Unexpunge_cas : cs_goal Unexpunge_cas.
+Proof.
+  intros t i f ch r. cs_start. destruct Hw as [Hw Hk].
+  destruct (f_e f) as [e|] eqn:Hfe; [|exfalso; apply He; reflexivity].
+  destruct (ent i e) eqn:Hent; simplify_eq.
+  - apply cs_stay; [exact Hmu|]. apply (WFL_unexp_next _ f e); auto. rewrite is_exp_ent, Hent. reflexivity.
+  - destruct (WF_unexpunge (i_st i) (key_of (f_call f)) e) as (d & Hd & Hc' & Ha'); auto.
+    { rewrite is_exp_ent, Hent. reflexivity. }
+    unfold dirty_insert, bind. cbn. rewrite Hd.
+    apply cs_stay; [exact Hmu|]. apply (WFL_unexp_next _ f e); auto.
+    cbn. rewrite is_exp_mk, exps_insert, decide_True by reflexivity. reflexivity.
+  - apply cs_stay; [exact Hmu|]. apply (WFL_unexp_next _ f e); auto. rewrite is_exp_ent, Hent. reflexivity.
+Qed.
+
+(* dirtyLocked *)
+Lemma cs_Dirty_read : cs_goal Dirty_read.
+Proof.
+  intros t i f ch r. cs_start. destruct Hw as (Hw & Hd & Hk). simplify_eq.
+  destruct (WF_dirty_read (i_st i) (key_of (f_call f)) Hc Hd Hk) as [Hc' Hl].
+  apply cs_stay; [exact Hmu|]. apply WFL_dirty_next; [exact Hc'|exact Hl].
+Qed.
+
+Lemma cs_Dirty_iter : cs_goal Dirty_iter.
+Proof.
+  intros t i f ch r. cs_start. repeat case_match; simplify_eq.
+  apply cs_stay; [exact Hmu|]. split; [reflexivity|]. split; [exact Hc|]. cbn.
+  exists (f_visited f). split; [reflexivity|]. split; [apply existsb_eqb_notin; assumption|]. auto.
+Qed.
+
+Lemma cs_expunge_load t i f r :
+  frame_ok f -> i_mu i = Some t -> WF_core (i_st i) -> needs_e (f_pc f) = true ->
+  (exists vis, f_visited f = f_curk f :: vis /\ f_curk f ∉ vis /\ f_rd_m f !! f_curk f = f_e f /\
+               loop_inv (i_st i) (f_rd_m f) (key_of (f_call f)) vis) ->
+  match f_e f with
+  | None => Some (Panic NilDeref)
+  | Some e => match ent i e with
+              | PNil => Some (Ok (i, Continue (set_pc f Expunge_cas)))
+              | PExpunged => Some (do r <- expunge_done i f e true; Ok (r.1, Continue r.2))
+              | PVal _ => Some (do r <- expunge_done i f e false; Ok (r.1, Continue r.2))
+              end
+  end = Some r -> cs_post t r.
+Proof.
+  intros [He Hst Hdel Hpost] Hmu Hc Hne (vis & Hv & Hnv & Hcur & Hl) H.
+  destruct (f_e f) as [e|] eqn:Hfe; [|exfalso; apply He; auto].
+  assert (Hrk : read_m (i_st i) !! f_curk f = Some e). { destruct Hl as [<- _]. exact Hcur. }
+  destruct (ent i e) eqn:Hent; simplify_eq.
+  - apply cs_stay; [exact Hmu|]. split; [reflexivity|]. split; [exact Hc|]. cbn. exists vis. rewrite Hfe. auto.
+  - cbn. apply cs_stay; [exact Hmu|]. apply WFL_dirty_next; [exact Hc|]. rewrite Hv.
+    eapply loop_skip; eauto. rewrite is_exp_ent, Hent. reflexivity.
+  - unfold expunge_done.
+    assert (exists s', dirty_insert (i_st i) (f_curk f) e = Ok s') as [s' Hs'].
+    { destruct Hl as (_ & _ & _ & d & Hd & _). unfold dirty_insert. rewrite Hd. eauto. }
+    rewrite Hs'. cbn.
+    destruct (loop_copy (i_st i) (f_rd_m f) (key_of (f_call f)) vis (f_curk f) e s') as [Hc' Hl']; auto.
+    { rewrite is_exp_ent, Hent. reflexivity. }
+    apply cs_stay; [exact Hmu|]. apply WFL_dirty_next; [exact Hc'|]. rewrite Hv. exact Hl'.
+Qed.
+
+Lemma cs_Expunge_load1 : cs_goal Expunge_load1.
+Proof.
+  intros t i f ch r Hok Hpc Hmu [Hc Hw] H. unfold step_frame in H. rewrite Hpc in H.
+  unfold cs_class in Hw; rewrite Hpc in Hw. eapply cs_expunge_load; eauto. rewrite Hpc. reflexivity.
+Qed.
+
+Lemma cs_Expunge_load2 : cs_goal Expunge_load2.
+Proof.
+  intros t i f ch r Hok Hpc Hmu [Hc Hw] H. unfold step_frame in H. rewrite Hpc in H.
+  unfold cs_class in Hw; rewrite Hpc in Hw. eapply cs_expunge_load; eauto. rewrite Hpc. reflexivity.
+Qed.
+
+Lemma cs_Expunge_cas : cs_goal Expunge_cas.
+Proof.
+  intros t i f ch r. cs_start. destruct Hw as (vis & Hv & Hnv & Hcur & Hl).
+  destruct (f_e f) as [e|] eqn:Hfe; [|exfalso; apply He; auto].
+  assert (Hrk : read_m (i_st i) !! f_curk f = Some e). { destruct Hl as [<- _]. exact Hcur. }
+  destruct (ent i e) eqn:Hent; simplify_eq.
+  - cbn. destruct (loop_expunge (i_st i) (f_rd_m f) (key_of (f_call f)) vis (f_curk f) e) as [Hc' Hl']; auto.
+    { rewrite is_exp_ent, Hent. reflexivity. }
+    apply cs_stay; [exact Hmu|]. apply WFL_dirty_next; [exact Hc'|]. rewrite Hv. exact Hl'.
+  - apply cs_stay; [exact Hmu|]. split; [reflexivity|]. split; [exact Hc|]. cbn. exists vis. rewrite Hfe. auto.
+  - apply cs_stay; [exact Hmu|]. split; [reflexivity|]. split; [exact Hc|]. cbn. exists vis. rewrite Hfe. auto.
+Qed.
+
+Lemma cs_amend t i f r :
+  i_mu i = Some t -> WF_core (i_st i) ->
+  loop_inv (i_st i) (f_rd_m f) (key_of (f_call f)) (f_visited f) ->
+  (forall k e, read_m (i_st i) !! k = Some e -> k ∈ f_visited f) ->
+  (let s := i_st i in
+   let s0 := st_with_read s (f_rd_m f) true in
+   let '(s1, e1) := new_entry s0 (val_of (f_call f)) in
+   Some (do s2 <- dirty_insert s1 (key_of (f_call f)) e1;
+         Ok (with_st i s2,
+             match f_call f with
+             | CStore _ _ _ => Continue (set_pc f Store_unlock)
+             | _ => Continue (set_pc (set_los f (val_of (f_call f)) false) LOS_unlock)
+             end))) = Some r -> cs_post t r.
+Proof.
+  intros Hmu Hc Hl Hall H.
+  destruct (WF_amend (i_st i) (f_rd_m f) (key_of (f_call f)) (f_visited f) (val_of (f_call f)) Hc Hl Hall) as (d & Hd & Hc' & Ha').
+  unfold new_entry, dirty_insert, bind in H. cbn in H. rewrite Hd in H. simplify_eq.
+  destruct (f_call f); (apply cs_stay; [exact Hmu|]); apply WFL_plain; auto.
+Qed.
+
+Lemma cs_Store_amend : cs_goal Store_amend.
+Proof.
+  intros t i f ch r Hok Hpc Hmu [Hc Hw] H. unfold step_frame in H. rewrite Hpc in H.
+  unfold cs_class in Hw; rewrite Hpc in Hw. destruct Hw. eapply cs_amend; eauto.
+Qed.
+
+Lemma cs_LOS_amend : cs_goal LOS_amend.
+Proof.
+  intros t i f ch r Hok Hpc Hmu [Hc Hw] H. unfold step_frame in H. rewrite Hpc in H.
+  unfold cs_class in Hw; rewrite Hpc in Hw. destruct Hw. eapply cs_amend; eauto.
+Qed.
+
+(* ------------------------------------------------------------------ *)
+(* L3 assembled; L4 *)
+(* ------------------------------------------------------------------ *)
+Lemma sf_cs t i f ch r :
+  frame_ok f -> in_cs f = true -> i_mu i = Some t -> WFL (i_st i) f -> step_frame t i f ch = Some r -> cs_post t r.
+Proof.
+  intros Hok Hcs Hmu Hw H.
+  destruct (f_pc f) eqn:Hpc; try (unfold in_cs, cs_class in Hcs; rewrite Hpc in Hcs; discriminate);
+    try (assert (Hm : f_mode f <> MFast) by (unfold in_cs, cs_class in Hcs; rewrite Hpc in Hcs; destruct (f_mode f); congruence)).
+  all: first
+    [ eapply cs_Load_read2; eassumption | eapply cs_Load_unlock; eassumption | eapply cs_Miss_store; eassumption
+    | eapply cs_Store_read2; eassumption | eapply cs_Store_amend; eassumption | eapply cs_Store_unlock; eassumption
+    | eapply cs_Unexpunge_cas; eassumption | eapply cs_StoreLocked; eassumption
+    | eapply cs_LOS_read2; eassumption | eapply cs_LOS_amend; eassumption | eapply cs_LOS_unlock; eassumption
+    | eapply cs_Tlos_load1; eassumption | eapply cs_Tlos_cas; eassumption | eapply cs_Tlos_load2; eassumption
+    | eapply cs_LAD_read2; eassumption | eapply cs_LAD_unlock; eassumption
+    | eapply cs_Range_read2; eassumption | eapply cs_Range_promote; eassumption | eapply cs_Range_unlock; eassumption
+    | eapply cs_Dirty_read; eassumption | eapply cs_Dirty_iter; eassumption
+    | eapply cs_Expunge_load1; eassumption | eapply cs_Expunge_cas; eassumption | eapply cs_Expunge_load2; eassumption ].
+Qed.
+
+(* L4: no panic outside the critical section *)
+Lemma sf_free_nopanic t i f ch k :
+  frame_ok f -> in_cs f = false -> step_frame t i f ch <> Some (Panic k).
+Proof.
+  intros [He Hst Hdel Hpost] Hcs H. unfold step_frame in H. unfold in_cs, cs_class in Hcs.
+  destruct (f_pc f) eqn:Hpc; try discriminate Hcs; cbn in He;
+    unfold tlos_done in H; repeat case_match; simplify_eq; apply He; reflexivity.
+Qed.
+
+(* ------------------------------------------------------------------ *)
+(* [step], taken apart                                                *)
+(* ------------------------------------------------------------------ *)
+(* the local function [finish] of [step] *)
+Definition fin (c : config) (t : nat) (th : thread) (f : frame) (rest : list frame)
+    (insts : list inst) (um : gmap Z umutex) (o : result outcome) : option config :=
+  let inv := if t_fresh th then [EvInv t (f_call f)] else [] in
+  match o with
+  | Panic k =>
+      Some (Config insts um (set_nth_list t (Thread [] [] (t_results th ++ [RPanic k]) false) (c_threads c))
+                   (c_hist c ++ inv ++ [EvRes t (RPanic k)]) true)
+  | Ok (Continue f') =>
+      Some (Config insts um (set_nth_list t (Thread (t_prog th) (f' :: rest) (t_results th) false) (c_threads c))
+                   (c_hist c ++ inv) false)
+  | Ok (Return r) =>
+      let r := match f_call f with CDelete _ _ => RUnit | _ => r end in
+      let '(th', rs) := do_return (Thread (t_prog th) (t_stack th) (t_results th) false) r rest in
+      Some (Config insts um (set_nth_list t th' (c_threads c))
+                   (c_hist c ++ inv ++ map (EvRes t) rs) false)
+  | Ok (Callback f' k v) =>
+      let f'' := set_out f' (f_out f' ++ [(k, v)]) (match cb_of (f_call f') with CbStop _ => f_acc f' + 1 | _ => f_acc f' end)%Z in
+      match cb_of (f_call f') with
+      | CbStop n =>
+          let stop := match n with Some n => (Z.of_nat n <=? f_acc f'')%Z | None => false end in
+          match range_next f'' stop with
+          | Continue p =>
+              Some (Config insts um (set_nth_list t (Thread (t_prog th) (p :: rest) (t_results th) false) (c_threads c))
+                           (c_hist c ++ inv) false)
+          | Return r =>
+              let '(th', rs) := do_return (Thread (t_prog th) (t_stack th) (t_results th) false) r rest in
+              Some (Config insts um (set_nth_list t th' (c_threads c)) (c_hist c ++ inv ++ map (EvRes t) rs) false)
+          | Callback _ _ _ => None
+          end
+      | CbAdd j =>
+          Some (Config insts um
+                  (set_nth_list t (Thread (t_prog th) (new_frame (CLoadOrStore j k 0 PNone) :: f'' :: rest) (t_results th) false) (c_threads c))
+                  (c_hist c ++ inv) false)
+      | CbRemove j =>
+          Some (Config insts um
+                  (set_nth_list t (Thread (t_prog th) (new_frame (CLoadAndDelete j k) :: f'' :: rest) (t_results th) false) (c_threads c))
+                  (c_hist c ++ inv) false)
+      end
+  end.
+
+Lemma step_unfold c t ch :
+  step c t ch =
+  if c_panicked c then None else
+  match nth_error (c_threads c) t with
+  | None => None
+  | Some th =>
+      match t_stack th with
+      | [] => None
+      | f :: rest =>
+          if is_post_label (f_pc f) then
+            match step_post (c_um c) f with
+            | None => None
+            | Some (Panic k) => fin c t th f rest (c_insts c) (c_um c) (Panic k)
+            | Some (Ok (um', o)) => fin c t th f rest (c_insts c) um' (Ok o)
+            end
+          else
+            match nth_error (c_insts c) (call_inst (f_call f)) with
+            | None => None
+            | Some i =>
+                match step_frame t i f ch with
+                | None => None
+                | Some (Panic k) => fin c t th f rest (c_insts c) (c_um c) (Panic k)
+                | Some (Ok (i', o)) => fin c t th f rest (set_nth_list (call_inst (f_call f)) i' (c_insts c)) (c_um c) (Ok o)
+                end
+            end
+      end
+  end.
+Proof. reflexivity. Qed.
+
+(* the stack of a thread whose current frame returned (or whose Range callback
+   said stop): empty, a fresh call, or a Range parent resumed at Range_iter *)
+Definition fresh_stack (st : list frame) : Prop :=
+  match st with
+  | [] => True
+  | f0 :: _ => (exists c, f0 = new_frame c) \/ (exists p, f0 = set_pc p Range_iter)
+  end.
+
+Lemma fresh_next_call prog res b : fresh_stack (t_stack (next_call (Thread prog [] res b))).
+Proof. unfold next_call. cbn. destruct prog; cbn; eauto. Qed.
+
+Lemma do_return_shape th r rest th' rs : do_return th r rest = (th', rs) -> fresh_stack (t_stack th').
+Proof.
+  unfold do_return. destruct rest as [|p rest'].
+  - intros [= <- <-]. apply fresh_next_call.
+  - match goal with |- context [range_next ?x false] => destruct (range_next_cases x false) as [[r' ->]| ->] end.
+    + intros [= <- <-]. apply fresh_next_call.
+    + intros [= <- <-]. cbn. eauto.
+Qed.
+
+Lemma fin_shape c t th f rest insts um ro c' :
+  fin c t th f rest insts um ro = Some c' ->
+  c_insts c' = insts /\ c_um c' = um /\ exists th', c_threads c' = set_nth_list t th' (c_threads c) /\
+    match ro with
+    | Panic k => t_stack th' = [] /\ c_panicked c' = true
+    | Ok o => c_panicked c' = false /\
+        match o with
+        | Continue f' => t_stack th' = f' :: rest
+        | Return _ => fresh_stack (t_stack th')
+        | Callback _ _ _ => fresh_stack (t_stack th')
+        end
+    end.
+Proof.
+  unfold fin. intros H. destruct ro as [[f'|r|f' k v]|k].
+  - simplify_eq. cbn. eauto 10.
+  - destruct (do_return _ _ rest) as [th' rs] eqn:E. simplify_eq. cbn. apply do_return_shape in E. eauto 10.
+  - destruct (cb_of (f_call f')) as [n|j|j] eqn:Ecb.
+    + match type of H with context [range_next ?x ?y] => destruct (range_next_cases x y) as [[r' Hr]| Hr]; rewrite Hr in H end.
+      * destruct (do_return _ _ rest) as [th' rs] eqn:E. simplify_eq. cbn. apply do_return_shape in E. eauto 10.
+      * simplify_eq. cbn. split; [reflexivity|]. split; [reflexivity|]. eexists. split; [reflexivity|]. split; [reflexivity|].
+        cbn. eauto.
+    + simplify_eq. cbn. split; [reflexivity|]. split; [reflexivity|]. eexists. split; [reflexivity|]. split; [reflexivity|].
+      cbn. eauto.
+    + simplify_eq. cbn. split; [reflexivity|]. split; [reflexivity|]. eexists. split; [reflexivity|]. split; [reflexivity|].
+      cbn. eauto.
+  - simplify_eq. cbn. eauto 10.
+Qed.
+
+Lemma fresh_stack_top st f0 rest0 : fresh_stack st -> st = f0 :: rest0 -> frame_ok f0 /\ in_cs f0 = false.
+Proof.
+  intros H ->. destruct H as [[c ->]|[p ->]].
+  - split; [apply frame_ok_new|]. destruct c; reflexivity.
+  - split; [apply frame_ok_plain; reflexivity|reflexivity].
+Qed.
+
+Lemma step_post_return um f um' o : step_post um f = Some (Ok (um', o)) -> exists r, o = Return r.
+Proof. unfold step_post. intros H. repeat case_match; simplify_eq; eauto. Qed.
+
+(* ------------------------------------------------------------------ *)
+(* the invariant of configurations                                    *)
+(* ------------------------------------------------------------------ *)
+Definition top_frame (c : config) (t : nat) : option frame :=
+  match nth_error (c_threads c) t with Some th => head (t_stack th) | None => None end.
+
+(* thread t is inside the critical section of instance j *)
+Definition holder (c : config) (j t : nat) : Prop :=
+  exists f, top_frame c t = Some f /\ call_inst (f_call f) = j /\ in_cs f = true.
+
+Definition inst_ok (c : config) (j : nat) (i : inst) : Prop :=
+  (forall t, i_mu i = Some t <-> holder c j t) /\
+  match i_mu i with
+  | None => WF (i_st i)
+  | Some t => forall f, top_frame c t = Some f -> WFL (i_st i) f
+  end.
+
+Record Inv (c : config) : Prop := {
+  inv_frames : forall t f, top_frame c t = Some f -> frame_ok f;
+  inv_insts : forall j i, nth_error (c_insts c) j = Some i -> inst_ok c j i
+}.
+
+Lemma top_frame_set c c' t th' t' :
+  t < length (c_threads c) -> c_threads c' = set_nth_list t th' (c_threads c) ->
+  top_frame c' t' = if decide (t' = t) then head (t_stack th') else top_frame c t'.
+Proof.
+  intros Hl E. unfold top_frame. rewrite E. destruct (decide (t' = t)) as [->|N].
+  - rewrite nth_error_set_nth_list_eq by exact Hl. reflexivity.
+  - rewrite nth_error_set_nth_list_ne by auto. reflexivity.
+Qed.
+
+Lemma Inv_step_gen c c' t th f rest th' j0 :
+  Inv c -> nth_error (c_threads c) t = Some th -> t_stack th = f :: rest -> call_inst (f_call f) = j0 ->
+  c_threads c' = set_nth_list t th' (c_threads c) ->
+  (forall j, j <> j0 -> nth_error (c_insts c') j = nth_error (c_insts c) j) ->
+  (forall f0, head (t_stack th') = Some f0 -> frame_ok f0 /\ (in_cs f0 = true -> call_inst (f_call f0) = j0)) ->
+  (forall i', nth_error (c_insts c') j0 = Some i' -> exists i, nth_error (c_insts c) j0 = Some i /\
+       (forall t', t' <> t -> (i_mu i' = Some t' <-> i_mu i = Some t')) /\
+       (i_mu i' = Some t <-> exists f0, head (t_stack th') = Some f0 /\ in_cs f0 = true) /\
+       match i_mu i' with
+       | None => WF (i_st i')
+       | Some t' => if decide (t' = t) then forall f0, head (t_stack th') = Some f0 -> WFL (i_st i') f0
+                    else forall fh, WFL (i_st i) fh -> WFL (i_st i') fh
+       end) ->
+  Inv c'.
+Proof.
+  intros [If Ii] Hth Hst Hj0 Hc' Hother Htop Hinst.
+  assert (Hl : t < length (c_threads c)) by (eapply nth_error_lt; eauto).
+  assert (TF : forall t', top_frame c' t' = if decide (t' = t) then head (t_stack th') else top_frame c t')
+    by (intros; eapply top_frame_set; eauto).
+  assert (Tt : top_frame c t = Some f) by (unfold top_frame; rewrite Hth, Hst; reflexivity).
+  constructor.
+  - intros t' f0. rewrite TF. destruct (decide (t' = t)) as [->|N]; [|apply If]. intros H. apply Htop, H.
+  - intros j i' Hi'. destruct (decide (j = j0)) as [->|Nj].
+    + destruct (Hinst i' Hi') as (i & Hi & Ho & Ht & Hs). destruct (Ii _ _ Hi) as [Hm Hw].
+      assert (HH : forall t', i_mu i' = Some t' <-> holder c' j0 t').
+      { intros t'. destruct (decide (t' = t)) as [->|N].
+        - rewrite Ht. unfold holder. rewrite TF, decide_True by reflexivity. split.
+          + intros (f0 & H1 & H2). exists f0. split; [exact H1|]. split; [|exact H2]. apply Htop; assumption.
+          + intros (f0 & H1 & H2 & H3). eauto.
+        - rewrite (Ho t' N), Hm. unfold holder. rewrite TF, decide_False by exact N. reflexivity. }
+      split; [exact HH|]. destruct (i_mu i') as [t'|] eqn:Em; [|exact Hs].
+      intros f0. rewrite TF. destruct (decide (t' = t)) as [->|N]; [apply Hs|].
+      intros Hf0. apply Hs. assert (Em0 : i_mu i = Some t') by (apply (Ho t' N); reflexivity). rewrite Em0 in Hw. apply Hw, Hf0.
+    + rewrite (Hother j Nj) in Hi'. destruct (Ii _ _ Hi') as [Hm Hw].
+      assert (HH : forall t', holder c' j t' <-> holder c j t').
+      { intros t'. unfold holder. rewrite TF. destruct (decide (t' = t)) as [->|N]; [|reflexivity]. split.
+        - intros (f0 & H1 & H2 & H3). destruct (Htop f0 H1) as [_ H4]. specialize (H4 H3). congruence.
+        - intros (f0 & H1 & H2 & H3). congruence. }
+      split; [intros t'; rewrite HH; apply Hm|].
+      destruct (i_mu i') as [t'|] eqn:Em; [|exact Hw].
+      intros f0. rewrite TF. destruct (decide (t' = t)) as [->|N]; [|apply Hw].
+      exfalso. destruct (proj1 (Hm t) eq_refl) as (f1 & H1 & H2 & H3). congruence.
+Qed.
+
+(* ------------------------------------------------------------------ *)
+(* preservation *)
+(* ------------------------------------------------------------------ *)
+Lemma in_cs_post_label f : is_post_label (f_pc f) = true -> in_cs f = false.
+Proof. unfold in_cs, cs_class. destruct (f_pc f); try discriminate; reflexivity. Qed.
+
+Definition after_stack (o : outcome) (rest st : list frame) : Prop :=
+  match o with Continue f' => st = f' :: rest | _ => fresh_stack st end.
+
+Lemma after_stack_top o rest st f0 : after_stack o rest st -> head st = Some f0 ->
+  (o = Continue f0) \/ ((forall f', o <> Continue f') /\ frame_ok f0 /\ in_cs f0 = false).
+Proof.
+  intros H Hh. destruct st as [|f1 st']; [discriminate|]. cbn in Hh. simplify_eq.
+  unfold after_stack in H. destruct o.
+  - left. congruence.
+  - right. split; [congruence|]. eapply fresh_stack_top; eauto.
+  - right. split; [congruence|]. eapply fresh_stack_top; eauto.
+Qed.
+
+(* a step that leaves every instance alone, by a thread outside any critical section *)
+Lemma Inv_step_idle c c' t th f rest th' :
+  Inv c -> nth_error (c_threads c) t = Some th -> t_stack th = f :: rest -> in_cs f = false ->
+  c_threads c' = set_nth_list t th' (c_threads c) -> c_insts c' = c_insts c ->
+  (forall f0, head (t_stack th') = Some f0 -> frame_ok f0 /\ in_cs f0 = false) ->
+  Inv c'.
+Proof.
+  intros HI Hth Hst Hcs Hc' Hi Htop.
+  assert (Tt : top_frame c t = Some f) by (unfold top_frame; rewrite Hth, Hst; reflexivity).
+  eapply (Inv_step_gen c c' t th f rest th' (call_inst (f_call f))); eauto.
+  - intros j _. rewrite Hi. reflexivity.
+  - intros f0 H0. destruct (Htop f0 H0) as [H1 H2]. split; [exact H1|]. congruence.
+  - intros i' Hi'. rewrite Hi in Hi'. exists i'. split; [exact Hi'|]. split; [reflexivity|].
+    destruct (inv_insts c HI _ _ Hi') as [Hm Hw].
+    assert (Hnt : i_mu i' <> Some t).
+    { intros E. apply Hm in E as (f1 & H1 & H2 & H3). congruence. }
+    split.
+    + split; [congruence|]. intros (f0 & H0 & H1). destruct (Htop f0 H0). congruence.
+    + destruct (i_mu i') as [t'|]; [|exact Hw]. destruct (decide (t' = t)); [congruence|auto].
+Qed.
+
+Theorem Inv_step c t ch c' : Inv c -> step c t ch = Some c' -> Inv c'.
+Proof.
+  intros HI H. rewrite step_unfold in H.
+  destruct (c_panicked c); [discriminate|].
+  destruct (nth_error (c_threads c) t) as [th|] eqn:Hth; [|discriminate].
+  destruct (t_stack th) as [|f rest] eqn:Hst; [discriminate|].
+  assert (Tt : top_frame c t = Some f) by (unfold top_frame; rewrite Hth, Hst; reflexivity).
+  assert (Hok : frame_ok f) by (eapply inv_frames; eauto).
+  destruct (is_post_label (f_pc f)) eqn:Hpl.
+  - (* keyed-mutex hook *)
+    assert (Hcs : in_cs f = false) by (apply in_cs_post_label; exact Hpl).
+    destruct (step_post (c_um c) f) as [[[um' o]|k]|] eqn:Hsp; [| |discriminate].
+    + destruct (step_post_return _ _ _ _ Hsp) as [r ->].
+      apply fin_shape in H as (Hi & Hu & th' & Hth' & Hp & Hfresh).
+      eapply Inv_step_idle; eauto. intros f0 H0. destruct (t_stack th') as [|f1 st]; [discriminate|].
+      cbn in H0. simplify_eq. eapply fresh_stack_top; eauto.
+    + apply fin_shape in H as (Hi & Hu & th' & Hth' & Hs & Hp).
+      eapply Inv_step_idle; eauto. intros f0 H0. rewrite Hs in H0. discriminate.
+  - (* a hook of sync2.Map *)
+    set (j0 := call_inst (f_call f)) in *.
+    destruct (nth_error (c_insts c) j0) as [i|] eqn:Hi; [|discriminate].
+    destruct (inv_insts c HI _ _ Hi) as [Hm Hw].
+    assert (Hl : j0 < length (c_insts c)) by (eapply nth_error_lt; eauto).
+    destruct (step_frame t i f ch) as [r|] eqn:Hsf; [|discriminate].
+    destruct (in_cs f) eqn:Hcs.
+    + (* inside the critical section *)
+      assert (Hmu : i_mu i = Some t). { apply Hm. exists f. auto. }
+      rewrite Hmu in Hw. specialize (Hw f Tt).
+      destruct (sf_cs t i f ch r Hok Hcs Hmu Hw Hsf) as (i' & o & -> & Hcase).
+      pose proof (sf_frame_ok _ _ _ _ _ _ Hok Hsf) as Hfo.
+      apply fin_shape in H as (Hi' & Hu & th' & Hth' & Hp & Hafter). fold (after_stack o rest (t_stack th')) in Hafter.
+      eapply (Inv_step_gen c c' t th f rest th' j0); eauto.
+      * intros j Nj. rewrite Hi'. apply nth_error_set_nth_list_ne; auto.
+      * intros f0 H0. destruct (after_stack_top _ _ _ _ Hafter H0) as [->|(_ & H1 & H2)].
+        -- destruct Hfo as [H1 H2]. split; [exact H1|]. intros _. rewrite H2. reflexivity.
+        -- split; [exact H1|]. congruence.
+      * intros i2 Hi2. rewrite Hi', nth_error_set_nth_list_eq in Hi2 by exact Hl. injection Hi2 as <-.
+        exists i. split; [exact Hi|].
+        destruct Hcase as [(Hmu' & f' & -> & Hcs' & Hw')|(Hmu' & Hw' & Hfree)].
+        -- cbn in Hafter. split; [intros t' N; rewrite Hmu, Hmu'; split; congruence|]. split.
+           ++ split; [|auto]. intros _. exists f'. rewrite Hafter. auto.
+           ++ rewrite Hmu'. rewrite decide_True by reflexivity. intros f0. rewrite Hafter. cbn. congruence.
+        -- split; [intros t' N; rewrite Hmu, Hmu'; split; congruence|]. split.
+           ++ split; [rewrite Hmu'; discriminate|]. intros (f0 & H0 & H1). exfalso.
+              destruct (after_stack_top _ _ _ _ Hafter H0) as [->|(_ & _ & H2)]; [cbn in Hfree|]; congruence.
+           ++ rewrite Hmu'. exact Hw'.
+    + (* outside *)
+      assert (Hmu : i_mu i <> Some t). { intros E. apply Hm in E as (f1 & H1 & H2 & H3). congruence. }
+      destruct r as [[i' o]|k]; [|exfalso; eapply sf_free_nopanic; eauto].
+      pose proof (sf_frame_ok _ _ _ _ _ _ Hok Hsf) as Hfo.
+      destruct (sf_free _ _ _ _ _ _ Hok Hcs Hsf) as [(Hmu0 & -> & f' & -> & Hcl)|(Hmu' & [Hsim Hmiss] & Hfree)];
+        apply fin_shape in H as (Hi' & Hu & th' & Hth' & Hp & Hafter).
+      * (* the lock is taken *)
+        cbn in Hafter. rewrite Hmu0 in Hw.
+        eapply (Inv_step_gen c c' t th f rest th' j0); eauto.
+        -- intros j Nj. rewrite Hi'. apply nth_error_set_nth_list_ne; auto.
+        -- intros f0. rewrite Hafter. cbn. intros [= <-]. destruct Hfo as [H1 H2]. split; [exact H1|]. intros _. rewrite H2. reflexivity.
+        -- intros i2 Hi2. rewrite Hi', nth_error_set_nth_list_eq in Hi2 by exact Hl. injection Hi2 as <-.
+           exists i. split; [exact Hi|]. cbn. split; [intros t' N; rewrite Hmu0; split; congruence|]. split.
+           ++ split; [|auto]. intros _. exists f'. rewrite Hafter. split; [reflexivity|]. unfold in_cs. rewrite Hcl. reflexivity.
+           ++ rewrite decide_True by reflexivity. intros f0. rewrite Hafter. cbn. intros [= <-].
+              destruct Hw. apply WFL_plain; auto.
+      * fold (after_stack o rest (t_stack th')) in Hafter.
+        eapply (Inv_step_gen c c' t th f rest th' j0); eauto.
+        -- intros j Nj. rewrite Hi'. apply nth_error_set_nth_list_ne; auto.
+        -- intros f0 H0. destruct (after_stack_top _ _ _ _ Hafter H0) as [->|(_ & H1 & H2)].
+           ++ destruct Hfo as [H1 H2]. split; [exact H1|]. intros _. rewrite H2. reflexivity.
+           ++ split; [exact H1|]. congruence.
+        -- intros i2 Hi2. rewrite Hi', nth_error_set_nth_list_eq in Hi2 by exact Hl. injection Hi2 as <-.
+           exists i. split; [exact Hi|]. split; [intros t' N; rewrite Hmu'; reflexivity|]. split.
+           ++ split; [rewrite Hmu'; congruence|]. intros (f0 & H0 & H1). exfalso.
+              destruct (after_stack_top _ _ _ _ Hafter H0) as [->|(_ & _ & H2)]; [cbn in Hfree|]; congruence.
+           ++ rewrite Hmu'. destruct (i_mu i) as [t'|]; [|eapply WF_sim; eauto].
+              destruct (decide (t' = t)); [congruence|]. intros fh. apply WFL_sim. exact Hsim.
 Qed.
